@@ -59,6 +59,7 @@ type Node struct {
 	// faults
 	next      map[string][]Outcome // per kind: outcomes for upcoming calls (FIFO)
 	restFail  map[string]int       // action -> number of upcoming requests to fail
+	restHold map[string]*restHold // action -> hold the next request of that action (see HoldRest)
 	pingFail  bool
 	StallFor  time.Duration
 	Log       []DPCall
@@ -147,7 +148,16 @@ func (n *Node) listen() error {
 		if r.URL.Path == "/ping" && n.pingFail {
 			failIt = true
 		}
+		var hold *restHold
+		if action != "" && n.restHold != nil && n.restHold[action] != nil {
+			hold = n.restHold[action]
+			delete(n.restHold, action)
+		}
 		n.mu.Unlock()
+		if hold != nil {
+			close(hold.Arrived)
+			time.Sleep(hold.D)
+		}
 		if failIt {
 			http.Error(w, "injected failure of "+action, http.StatusInternalServerError)
 			return
@@ -446,6 +456,25 @@ func (n *Node) FailRest(action string, times int) {
 	n.mu.Lock()
 	n.restFail[action] += times
 	n.mu.Unlock()
+}
+
+// restHold: the next request for an action is announced on Arrived and then
+// kept waiting for D before it is served (a rendezvous for request races: the
+// caller of that action - the controller, holding its lock - is parked there).
+type restHold struct {
+	Arrived chan struct{}
+	D       time.Duration
+}
+
+func (n *Node) HoldRest(action string, d time.Duration) *restHold {
+	h := &restHold{Arrived: make(chan struct{}), D: d}
+	n.mu.Lock()
+	if n.restHold == nil {
+		n.restHold = map[string]*restHold{}
+	}
+	n.restHold[action] = h
+	n.mu.Unlock()
+	return h
 }
 
 func (n *Node) SetPingFail(b bool) {
